@@ -15,11 +15,13 @@ def run_property(ck: Check, prop: str):
         proved = ck.lean_obligations()
     have_model = (LEAN / 'BqVerif' / 'Drivers' / 'Runtime.lean').exists()
     agg = rc.run_batch(ck.seed, ck.tier, have_model)
+    # the exhaustive exploration of the smallest scenarios first: its
+    # schedules are the shortest reproducers of a signature
+    rc.report_exhaustive(ck, prop)
     rc.report(ck, agg, prop)
     if have_model:
         from harness import runtime_model as rm
         rm.report(ck, agg, prop)
-    rc.report_exhaustive(ck, prop)
     extra = getattr(rc, f'extra_{prop.lower()}', None)
     if extra:
         extra(ck)
@@ -36,9 +38,12 @@ def run_property(ck: Check, prop: str):
         'objects; distinct = distinct SHA-1 of (scenario, schedule)')
     ck.assumptions += [
         'handler-level atomicity: one delivery / one worker loop iteration '
-        'is one transition (the two worker threads interleave only at these '
-        'boundaries; line-level interleavings are covered by the fine model '
-        'witness only)',
+        'is one transition of the network model; the line-level '
+        'interleavings of the two worker threads are covered for '
+        '_process_await || _handle_result only (source-line model with the '
+        'mailbox mutex, C07_fine_lock_safe / C07_fine_lock_complete, tied by '
+        'the AST query and scheduler-controlled two-thread runs); '
+        '_handle_cancel || main thread is not modelled at line level',
         'per-link FIFO channels, no loss, no duplication (multiprocessing '
         'Connection over a stream socket)',
         'the outgoing thread of a server forwards self.outgoing in order '
